@@ -101,6 +101,9 @@ def scenario(run, tape, clock, stores):
     if prefix in C.S3_LAYOUT_PREFIXES:
         run.probe('s3_prefix_spelt_with_layout_words')
     s3 = C.Store('s3', key_prefix=prefix, clock=clock, page_size=tape.choice([1000, 1, 2]))
+    s3.ia_kb = tape.choice([None, None, 0.001, 0.3])
+    if s3.ia_kb is not None:
+        run.probe('s3_infrequent_access_threshold')
     stores.extend([mem, fil, s3])
     if prefix == '':
         run.probe('s3_default_empty_prefix')
